@@ -71,7 +71,7 @@ package sse
 
 //@ pure wf(q) = 0 <= q.count && q.count <= len(q.buf) && (len(q.buf) == 0 ==> q.head == 0 && q.tail == 0) &&
 //@     (len(q.buf) > 0 ==> 0 <= q.head && q.head < len(q.buf) && 0 <= q.tail && q.tail < len(q.buf) && q.tail == phys(q, q.count))
-//@ pure phys(q, k) = ite(q.head + k < len(q.buf), q.head + k, q.head + k - len(q.buf))
+//@ pure phys(q, k) = ringidx(q.head, len(q.buf), k)
 //@ pure at(q, k) = q.buf[phys(q, k)]
 //@ pure live(q, i) = ite(q.head + q.count <= len(q.buf), q.head <= i && i < q.head + q.count, i >= q.head || i < q.head + q.count - len(q.buf))
 //@ pure deadzero(q) = forall(i, 0, len(q.buf), !live(q, i) ==> q.buf[i] == zeroelem(q.buf))
@@ -104,9 +104,13 @@ package sse
 //@   ensures view_kept: forall(k, 0, q.count, at(q, k) == old(at(q, k)))
 //@   ensures dead_slots_zero: deadzero(q)
 
+//@ opaque intersects(a, b) = exists(i, 0, len(a), exists(j, 0, len(b), a[i] == b[j]))
+
 //@ func topicsIntersect
+//@   purefn
 //@   ensures found: result ==> exists(i, 0, len(a), exists(j, 0, len(b), a[i] == b[j]))
 //@   ensures none: !result ==> forall(i, 0, len(a), forall(j, 0, len(b), a[i] != b[j]))
+//@   ensures definition: result == intersects(a, b)
 //@   invariant 0 no_match_so_far: forall(i, 0, ri0, forall(j, 0, len(b), a[i] != b[j]))
 //@   invariant 1 no_match_in_row: forall(j, 0, ri1, a[ri0] != b[j])
 
@@ -143,3 +147,115 @@ package sse
 //@ func Type
 //@   requires valid: singleLine(value)
 //@   ensures set_to_value: result.set && result.value == value
+
+//@ func queue.each
+//@   requires q != nil && 0 <= startAt && startAt < len(q.buf) && 0 <= q.tail && q.tail <= len(q.buf)
+//@   iter count: ite(startAt < q.tail, q.tail - startAt, len(q.buf) - startAt + q.tail)
+//@   iter arg: ringidx(startAt, len(q.buf), iterk)
+//@   iter arg: q.buf[ringidx(startAt, len(q.buf), iterk)]
+
+//@ func queue.each$1
+//@   invariant 0 straight: startAt <= i && i <= q.tail && ncalls() == old(ncalls()) + i - startAt
+//@   invariant 0 straight_trace: forall(c, old(ncalls()), ncalls(), crecv(c) == yield && cret(c, "yield", 0) && carg(c, "yield", 0) == startAt + (c - old(ncalls())) && carg(c, "yield", 1) == q.buf[startAt + (c - old(ncalls()))])
+//@   invariant 1 upper: startAt <= i && i <= len(q.buf) && ncalls() == old(ncalls()) + i - startAt
+//@   invariant 1 upper_trace: forall(c, old(ncalls()), ncalls(), crecv(c) == yield && cret(c, "yield", 0) && carg(c, "yield", 0) == startAt + (c - old(ncalls())) && carg(c, "yield", 1) == q.buf[startAt + (c - old(ncalls()))])
+//@   invariant 2 lower: 0 <= i && i <= q.tail && ncalls() == old(ncalls()) + len(q.buf) - startAt + i
+//@   invariant 2 lower_trace_upper: forall(c, old(ncalls()), old(ncalls()) + len(q.buf) - startAt, crecv(c) == yield && cret(c, "yield", 0) && carg(c, "yield", 0) == startAt + (c - old(ncalls())) && carg(c, "yield", 1) == q.buf[startAt + (c - old(ncalls()))])
+//@   invariant 2 lower_trace: forall(c, old(ncalls()) + len(q.buf) - startAt, ncalls(), crecv(c) == yield && cret(c, "yield", 0) && carg(c, "yield", 0) == c - old(ncalls()) - (len(q.buf) - startAt) && carg(c, "yield", 1) == q.buf[c - old(ncalls()) - (len(q.buf) - startAt)])
+
+//@ pure consecutive(q) = parseUok(at(q, 0).ID().value) && parseUval(at(q, 0).ID().value) + q.count < 18446744073709551616 &&
+//@     forall(k, 0, q.count, at(q, k).ID().value == fmtU(parseUval(at(q, 0).ID().value) + k))
+
+//@ pure firstmatch(q, id, p) = at(q, p).ID() == id && forall(k, 0, p, at(q, k).ID() != id)
+//@ pure idwf(id) = id.set || id.value == ""
+//@ pure evictedauto(q, id) = q.count > 0 && parseUok(id.value) && parseUval(id.value) < parseUval(at(q, 0).ID().value)
+
+//@ func findIDInQueue
+//@   requires q != nil && wf(q) && idwf(id)
+//@   requires auto_ids_consecutive: autoID && q.count > 0 ==> consecutive(q) && forall(k, 0, q.count, at(q, k).ID().set)
+//@   ensures no_earlier_match_replays_nothing: forall(k, 0, q.count-1, at(q, k).ID() != id) && !(autoID && evictedauto(q, id)) ==> result == -1
+//@   ensures starts_after_first_match: forall(p, 0, q.count-1, firstmatch(q, id, p) ==> result == phys(q, p+1))
+//@   ensures range: result == -1 || (0 <= result && result < len(q.buf))
+//@   ensures empty_replays_nothing: q.count == 0 ==> result == -1
+//@   ensures unknown_id_replays_nothing: !autoID && forall(k, 0, q.count, at(q, k).ID() != id) ==> result == -1
+//@   ensures newest_replays_nothing: !autoID && q.count > 0 && at(q, q.count-1).ID() == id && forall(k, 0, q.count-1, at(q, k).ID() != id) ==> result == -1
+//@   ensures start_after_match: !autoID ==> forall(p, 0, q.count-1, at(q, p).ID() == id && forall(k, 0, p, at(q, k).ID() != id) ==> result == phys(q, p+1))
+//@   ensures auto_unparsable_replays_nothing: autoID && !parseUok(id.value) ==> result == -1
+//@   ensures auto_never_issued_spelling_replays_nothing: autoID && q.count > 0 && parseUok(id.value) && id.value != fmtU(parseUval(id.value)) ==> result == -1
+//@   ensures auto_future_id_replays_nothing: autoID && q.count > 0 && parseUok(id.value) && parseUval(id.value) >= parseUval(at(q, 0).ID().value) + q.count ==> result == -1
+//@   ensures auto_newest_replays_nothing: autoID && q.count > 0 && id.value == at(q, q.count-1).ID().value ==> result == -1
+//@   ensures auto_start_after_match: autoID ==> forall(p, 0, q.count-1, id.value == at(q, p).ID().value ==> result == phys(q, p+1))
+//@   site each0 scanning: i == -1 && forall(k, 0, iterk, at(q, k).ID() != id)
+
+// ---------------------------------------------------------------------------------------------------------
+// replay.go: FiniteReplayer (C08, C18, C19)
+// ---------------------------------------------------------------------------------------------------------
+
+//@ pure msgok(e) = e.message != nil && allocated(e.message) && e.message.ID.set && len(e.topics) > 0
+//@ pure autoinv(q, cur) = cur >= q.count && forall(k, 0, q.count, at(q, k).message.ID.value == fmtU(cur - q.count + k))
+//@ pure fok(f) = wf(&f.buf) && len(f.buf.buf) >= 2 && forall(k, 0, f.buf.count, msgok(at(&f.buf, k))) &&
+//@     (f.currentID != nil ==> allocated(f.currentID) && autoinv(&f.buf, *f.currentID))
+
+//@ func Message.Clone
+//@   requires e != nil
+//@   ensures is_new: result != nil && fresh(result) && allocated(result)
+//@   ensures same_fields: result.ID == e.ID && result.Type == e.Type && result.Retry == e.Retry && result.chunks == e.chunks
+//@   ensures original_untouched: *e == old(*e)
+
+//@ func ensureID
+//@   requires m != nil
+//@   requires counter_room: currentID != nil ==> *currentID < 18446744073709551615
+//@   modifies *currentID
+//@   ensures manual_without_id_rejected: currentID == nil && !m.ID.set ==> result1 != nil && result == nil
+//@   ensures manual_with_id_accepted: currentID == nil && m.ID.set ==> result1 == nil && result == m
+//@   ensures auto_with_id_rejected: currentID != nil && m.ID.set ==> result1 != nil && result == nil && *currentID == old(*currentID)
+//@   ensures auto_assigns_next_id: currentID != nil && !m.ID.set ==> result1 == nil && result != nil && fresh(result) && allocated(result) && result.ID.set && result.ID.value == fmtU(old(*currentID)) && *currentID == old(*currentID) + 1
+//@   ensures auto_copies_rest: currentID != nil && !m.ID.set ==> result.Type == m.Type && result.Retry == m.Retry && result.chunks == m.chunks
+//@   ensures message_untouched: *m == old(*m)
+
+//@ func NewFiniteReplayer
+//@   ensures too_small_rejected: count < 2 ==> result == nil && result1 != nil
+//@   ensures created: count >= 2 ==> result1 == nil && result != nil && fok(result) && result.buf.count == 0 && len(result.buf.buf) == count
+//@   ensures auto_ids_start_at_zero: count >= 2 && autoIDs ==> result.currentID != nil && *result.currentID == 0
+//@   ensures manual_mode: count >= 2 && !autoIDs ==> result.currentID == nil
+
+//@ func FiniteReplayer.Put
+//@   requires f != nil && fok(f) && message != nil
+//@   assume no_counter_wrap: f.currentID != nil ==> *f.currentID < 18446744073709551615
+//@   modifies f.buf.buf, f.buf.head, f.buf.tail, f.buf.count, *f.currentID
+//@   ensures invariant_kept: fok(f) && len(f.buf.buf) == old(len(f.buf.buf))
+//@   ensures no_topics_rejected: len(topics) == 0 ==> result == nil && result1 == ErrNoTopic
+//@   ensures manual_needs_id: f.currentID == nil && !message.ID.set ==> result1 != nil
+//@   ensures auto_rejects_id: f.currentID != nil && message.ID.set ==> result1 != nil
+//@   ensures accepted_otherwise: len(topics) > 0 && iff(f.currentID == nil, message.ID.set) ==> result1 == nil
+//@   ensures rejected_not_stored: result1 != nil ==> result == nil && f.buf.count == old(f.buf.count) && forall(k, 0, f.buf.count, at(&f.buf, k) == old(at(&f.buf, k)))
+//@   ensures rejected_keeps_counter: result1 != nil && f.currentID != nil ==> *f.currentID == old(*f.currentID)
+//@   ensures stored_last: result1 == nil ==> result != nil && at(&f.buf, f.buf.count-1).message == result && at(&f.buf, f.buf.count-1).topics == topics
+//@   ensures fifo_grows: result1 == nil && old(f.buf.count) < len(f.buf.buf) ==> f.buf.count == old(f.buf.count) + 1 && forall(k, 0, old(f.buf.count), at(&f.buf, k) == old(at(&f.buf, k)))
+//@   ensures fifo_evicts_oldest: result1 == nil && old(f.buf.count) == len(f.buf.buf) ==> f.buf.count == len(f.buf.buf) && forall(k, 0, f.buf.count-1, at(&f.buf, k) == old(at(&f.buf, k+1)))
+//@   ensures manual_stores_given_message: result1 == nil && f.currentID == nil ==> result == message
+//@   ensures auto_consecutive_ids: result1 == nil && f.currentID != nil ==> result.ID.value == fmtU(old(*f.currentID)) && *f.currentID == old(*f.currentID) + 1 && fresh(result)
+//@   ensures message_untouched: *message == old(*message)
+
+
+//@ func FiniteReplayer.Replay
+//@   requires f != nil && fok(f) && idwf(subscription.LastEventID)
+//@   ensures replays_nothing: forall(k, 0, f.buf.count-1, at(&f.buf, k).ID() != subscription.LastEventID) && !(f.currentID != nil && evictedauto(&f.buf, subscription.LastEventID)) ==> ncalls() == old(ncalls()) && result == nil
+//@   ensures only_this_client: forall(c, old(ncalls()), ncalls(), crecv(c) == subscription.Client && (iscall(c, "Send") || iscall(c, "Flush")))
+//@   ensures sends_later_matching_events: forall(p, 0, f.buf.count-1, firstmatch(&f.buf, subscription.LastEventID, p) ==>
+//@       forall(c, old(ncalls()), ncalls(), iscall(c, "Send") ==> 0 <= citer(c) && p+1+citer(c) < f.buf.count &&
+//@           carg(c, "Send", 0) == at(&f.buf, p+1+citer(c)).message && intersects(subscription.Topics, at(&f.buf, p+1+citer(c)).topics)))
+//@   ensures sends_in_put_order: forall(c, old(ncalls()), ncalls()-1, iscall(c, "Send") && iscall(c+1, "Send") ==> citer(c) < citer(c+1))
+//@   ensures sends_every_later_matching_event: result == nil ==> forall(p, 0, f.buf.count-1, firstmatch(&f.buf, subscription.LastEventID, p) ==>
+//@       forall(j, p+1, f.buf.count, intersects(subscription.Topics, at(&f.buf, j).topics) ==>
+//@           old(ncalls()) <= callat(j-p-1) && callat(j-p-1) < ncalls() && iscall(callat(j-p-1), "Send") && citer(callat(j-p-1)) == j-p-1))
+//@   ensures failed_send_ends_replay: forall(c, old(ncalls()), ncalls(), iscall(c, "Send") && cret(c, "Send", 0) != nil ==> c == ncalls()-1 && result == cret(c, "Send", 0))
+//@   ensures flushes_once_at_end: ncalls() > old(ncalls()) && (iscall(ncalls()-1, "Flush") || cret(ncalls()-1, "Send", 0) == nil) ==>
+//@       iscall(ncalls()-1, "Flush") && result == cret(ncalls()-1, "Flush", 0) && forall(c, old(ncalls()), ncalls()-1, iscall(c, "Send"))
+//@   site each0 no_error_yet: err == nil
+//@   site each0 trace: forall(c, old(ncalls()), ncalls(), crecv(c) == subscription.Client && iscall(c, "Send") && cret(c, "Send", 0) == nil &&
+//@       0 <= citer(c) && citer(c) < iterk && carg(c, "Send", 0) == f.buf.buf[ringidx(i, len(f.buf.buf), citer(c))].message &&
+//@       intersects(subscription.Topics, f.buf.buf[ringidx(i, len(f.buf.buf), citer(c))].topics))
+//@   site each0 ordered: forall(c, old(ncalls()), ncalls()-1, citer(c) < citer(c+1))
+//@   site each0 covered: forall(j, 0, iterk, intersects(subscription.Topics, f.buf.buf[ringidx(i, len(f.buf.buf), j)].topics) ==>
+//@       old(ncalls()) <= callat(j) && callat(j) < ncalls() && citer(callat(j)) == j)
